@@ -68,3 +68,12 @@ Definition check_swing (l : list obs) (coef : Q) (units : list (Z * Z * Z)) : bo
       | _, _ => false
       end
   end.
+
+(* regularised runs go through an iterative conic solver: the coefficient is the weighted median only up to the solver's
+   tolerance (1e-5 relative), predictions within one vote of the closed form *)
+Definition check_swing_approx (l : list obs) (coef : Q) (units : list (Z * Z * Z)) : bool :=
+  match find_wmedian l with
+  | Some m => close_tol (1 # 100000) m coef
+              && forallb (fun u : Z * Z * Z => let '(last, res, pred) := u in Z.leb (Z.abs (unit_value m last res - pred)) 1) units
+  | None => check_swing l coef units
+  end.
